@@ -68,8 +68,22 @@ class Runner:
         out = []
         if m.hash is None:
             return [("C17|hash-missing", f"network map on but message {m.id} has no hash", case)]
-        pk = tuple(repr(m.fields[f.index].raw_value) for f in target.fields if f.pk and f.index < len(m.fields))
-        key = (m.id, pk)
+        # the key as the DATABASE defines it: raw bits of the fields it marks as part of the primary key, taken from the payload by the
+        # reference model (not from the message under test)
+        pk = None
+        if case.get("payload_hex"):
+            try:
+                data = bytes.fromhex(case["payload_hex"])
+                exps, _, _ = canboat.ref_decode(target, int.from_bytes(data, "little"), len(data))
+                pk = tuple((e.u if (e.u is not None and not e.field.type.startswith("STRING")) else
+                            "msg:" + repr(m.fields[e.field.index].raw_value) if e.field.index < len(m.fields) else None) for e in exps if e.field.pk)
+            except Exception:
+                pk = None
+        if pk is None:
+            pk = tuple(repr(m.fields[f.index].raw_value) for f in target.fields if f.pk and f.index < len(m.fields))
+        key = (target.id, pk)
+        if m.id != target.id:
+            out.append(("C17|wrong-definition", f"message id {m.id!r}, the database rule selects {target.id!r}", case))
         h = m.hash
         if h in self.by_hash and self.by_hash[h][0] != key:
             other = self.by_hash[h]
